@@ -665,6 +665,8 @@ class Norm:
             out = str(n['cv'])
         else:
             out = k
+        if out is None:
+            out = (r or {}).get('n') or k         # a reference of a kind the normaliser has no rule for (structured binding, ...)
         return self.names.get(out, out)
 
     # ---- conditions --------------------------------------------------------------------------------------------------------
@@ -971,6 +973,17 @@ def cond_value(nm, node, val):
     ex = nm.expand(m)
     if ex is not None:
         return cond_value(ex[0], ex[1], val)
+    bb_ = nm.bool_body(m) if m.get('k') in ('CallExpr', 'CXXOperatorCallExpr') else None
+    if bb_ is not None:
+        # a new boolean helper with early returns: the first early return whose condition holds decides, else the final value
+        sub_, early_, final_ = bb_
+        sub_.val = nm.val
+        for c_, k_ in early_:
+            if cond_value(sub_, c_, val):
+                return bool(k_)
+        if isinstance(final_, dict):
+            return cond_value(sub_, final_, val)
+        return bool(final_)
     if m['k'] == 'BinaryOperator' and m.get('op') in ('&&', '||'):
         a, b = kids(m)
         x = cond_value(nm, a, val)
